@@ -88,6 +88,11 @@ func Generate(t *rapid.T, schema *ast.Schema, opt Options) Op {
 	if len(g.varDefs) > 0 {
 		sb.WriteString("(" + strings.Join(g.varDefs, ", ") + ")")
 	}
+	if d := g.operationDirective(kind); d != "" && !opt.NoSkip && rapid.IntRange(0, 5).Draw(t, "opdir?") == 0 {
+		// an executable directive of the user on the operation itself
+		g.nalias++
+		sb.WriteString(fmt.Sprintf(" @%s(tag: \"o%d\")", d, g.nalias))
+	}
 	sb.WriteString(" " + body)
 	for _, f := range g.frags {
 		if !g.used[f.name] {
@@ -141,6 +146,28 @@ func (g *Gen) boolVar(val bool) string {
 		g.vars[name] = val
 	}
 	return "$" + name
+}
+
+// operationDirective: a custom directive (with a `tag` argument) the schema declares for operations
+// of this kind ("" if none).
+func (g *Gen) operationDirective(kind string) string {
+	loc := ast.LocationQuery
+	if kind == "mutation" {
+		loc = ast.LocationMutation
+	}
+	var names []string
+	for n, d := range g.Schema.Directives {
+		for _, l := range d.Locations {
+			if l == loc && d.Arguments.ForName("tag") != nil {
+				names = append(names, n)
+			}
+		}
+	}
+	if len(names) == 0 {
+		return ""
+	}
+	sort.Strings(names)
+	return names[0]
 }
 
 // fieldDirective: the name of a custom directive the schema declares for the FIELD location ("" if
